@@ -9,4 +9,5 @@ sh oracle/build.sh
 mkdir -p .cache
 cp /repo/Cargo.lock harness/Cargo.lock
 ( cd harness && CARGO_TARGET_DIR="$PWD/../.cache/target" RUSTFLAGS="--cfg flipdot_verif" cargo build --offline --quiet )
+( cd harness && CARGO_TARGET_DIR="$PWD/../.cache/target" RUSTFLAGS="--cfg flipdot_verif" cargo build --offline --quiet --release )
 echo "setup ok"
